@@ -15,6 +15,8 @@ From Verif Require Import Chain.Order.
 From Verif Require Import Chain.Final.
 From Verif Require Import Chain.Frame.
 From Verif Require Import Chain.Validity.
+From Verif Require Import Chain.Context.
+From Verif Require Import Chain.TargetId.
 Local Open Scope string_scope.
 Local Open Scope list_scope.
 
@@ -104,7 +106,7 @@ Proof.
   intros n. apply H.
 Qed.
 
-(* chained two deep: the hypothesis of C15_deterministic_order_partial holds *)
+(* splitters chained two deep *)
 Definition two_deep : list entry :=
   [ EProxy "http";
     ESplitter "a" [Split 3333 "b" ""; Split 6667 "a" ""]%N;
@@ -183,3 +185,52 @@ Proof.
   - injection Hg as <-. cbn [rs_failover] in Hin. destruct Hin as [H|[]]. injection H as _ <-. left. reflexivity.
   - destruct ("c" =? n); [|discriminate]. injection Hg as <-. destruct Hin.
 Qed.
+
+
+(* ------------------------------------------------------------------ evaluation contexts *)
+
+(* chain "a" has a splitter in front of its resolver; the resolver redirects to a subset that does
+   not exist.  The guard (dc1, no override) never resolves it and accepts every write; a proxy that
+   asks for the chain with OverrideProtocol = tcp gets an error (finding C15-guard-context). *)
+Definition ctx_w1 : wop := WPut (EProxy "http").
+Definition ctx_w2 : wop := WPut (ESplitter "a" [Split 5000 "b" ""; Split 5000 "c" ""]%N).
+Definition ctx_w3 : wop := WPut (EResolver "a" (Resolver "" [] (Some (Redirect "b" "v9" "")) [] false)).
+Definition ctx_store : list entry := fst (write (fst (write (fst (write [] ctx_w1)) ctx_w2)) ctx_w3).
+
+Lemma context_dependence :
+  Reachable ctx_store /\
+  (exists g, compile ctx_store test_ctx "a" [] = Ok g) /\
+  compile ctx_store (Ctx "dc1" "tcp") "a" [] = Err EBadSubset.
+Proof.
+  split; [|split; [eexists; vm_compute; reflexivity | vm_compute; reflexivity]].
+  unfold ctx_store.
+  eapply reach_write with (op := ctx_w3) (acc := snd (write (fst (write (fst (write [] ctx_w1)) ctx_w2)) ctx_w3));
+    [| cbn; intros key f []| apply surjective_pairing].
+  eapply reach_write with (op := ctx_w2) (acc := snd (write (fst (write [] ctx_w1)) ctx_w2));
+    [| exact I | apply surjective_pairing].
+  eapply reach_write with (op := ctx_w1) (acc := snd (write [] ctx_w1)); [constructor | exact I | apply surjective_pairing].
+Qed.
+
+Lemma context_independence_partial es cx svc mo g :
+  c_dc cx = "dc1" -> disable_adv cx = false ->
+  compile es test_ctx svc mo = Ok g ->
+  exists g', compile es cx svc mo = Ok g' /\ g_start g' = g_start g /\ g_nodes g' = g_nodes g /\ g_targets g' = g_targets g.
+Proof. intros Hdc Hdis. apply compile_ctx_ok; [symmetry; exact Hdc | symmetry; exact Hdis]. Qed.
+
+(* ------------------------------------------------------------------ failover is never followed *)
+
+(* a and b fail over to each other: no cycle arises, because a failover target is only resolved
+   (redirects, default subset) and listed; its own failover is not looked at *)
+Definition mutual_failover : list entry :=
+  [ EResolver "a" (Resolver "" [] None [("*", Failover "b" "" [] [])] false);
+    EResolver "b" (Resolver "" [] None [("*", Failover "a" "" [] [])] false) ].
+
+Lemma mutual_failover_compiles :
+  exists g, compile mutual_failover test_ctx "a" [] = Ok g /\
+            g_nodes g = [(NResolver (Tgt "a" "" "dc1"), ResolverN false [Tgt "b" "" "dc1"])] /\
+            g_targets g = [Tgt "a" "" "dc1"; Tgt "b" "" "dc1"].
+Proof. eexists. split; [vm_compute; reflexivity|]. split; reflexivity. Qed.
+
+(* the internal invariants used as hypotheses hold of the state every compilation starts from *)
+Lemma initial_invariants es cx svc : AInv es cx svc [] [] st0 /\ Final_memo es cx st0.
+Proof. split; [apply I_st0 | intros t Ht; discriminate]. Qed.
